@@ -15,6 +15,8 @@ claimed = {
          "bounds in evidence (strings <=2-5 bytes over ASCII / representative alphabets; <=3 groups); non-UTF-8 and non-ASCII group text outside; cmd/expressions.go emulation outside"),
  "C17": ("Real kf@* stages and stringSplitter.Splitter executed on symbolic NUL-free element strings, symbolic delimiters and symbolic indices (full int64 through the opaque IntStr contract), against list semantics written in the harness; sub-expressions are recording stubs that check {0}/{1}/named-key binding.",
          "bounds in evidence (lists <=3 elements of <=1-2 bytes, delimiters 1..3 bytes); concurrent evaluation outside; the one-element list [\"\"] excluded (encoding ambiguity)"),
+ "C08": ("Real kf* constructors and stages of every helper in stdlib.StandardFunctions that is not a thin wrapper over an opaque library, real KeyBuilder.Compile/BuildKey/optimize/splitTokenizedArguments and the context types, executed on symbolic templates and symbolic argument values (int64 renderings, arbitrary bytes, float renderings); every implicit run-time check (index, slice bounds, nil, divide, library panics of strings.Repeat) is a solver query; a panic on any path is a violation.",
+         "bounds in evidence (arity <=2/3, templates <=4/5 bytes over a 12-byte alphabet, unrolling 6/8); memory/time exhaustion and the 11 library-backed helpers outside; float arithmetic abstracted (over-approximation)"),
 }
 man = {
  "version": 1,
